@@ -39,6 +39,9 @@ impl Context {
     pub fn trace_value_prefix(&mut self, p: GcPtr)
         requires isobj(old(self)@, p), old(self)@.edges.dom().contains(p), edges_pre(old(self)@, old(self)@.edges[p]),
         ensures marks_rel(old(self)@, final(self)@, old(self)@.edges[p]),
+            // (consequences of marks_rel, stated as ground facts for the guard code that runs next)
+            isobj(final(self)@, p), final(self)@.m.traced == old(self)@.m.traced,
+            old(self)@.objs[p].color == GcColor::Black ==> final(self)@.objs[p].color == GcColor::Black,
     {
         let n = self.heap.edge_count(p);
         let k = self.heap.panic_point(n);
@@ -59,6 +62,13 @@ impl Context {
         let n = self.heap.root_edge_count();
         let k = self.heap.panic_point(n);
         self.trace_edges(None, k);
+    }
+
+    /// X-unwind: marks the unwinding exit of a generated unwind variant
+    pub fn begin_unwind(&mut self)
+        ensures final(self)@ == (S { unwinding: true, ..old(self)@ }),
+    {
+        proof { self.unwinding@ = true; }
     }
 
     pub open spec fn src_edges(s: S, src: Option<GcPtr>) -> Seq<Edge> { match src { Some(p) => s.edges[p], None => s.root_edges } }
